@@ -40,8 +40,9 @@ type Builder struct {
 }
 
 type DictInfo struct {
-	Node *Node
-	Keys map[interface{}]int // key Code (pointer) -> 1-based pair index
+	Node  *Node
+	Pairs []*Node             // the pair nodes in their original order
+	Keys  map[interface{}]int // key Code (pointer) -> 1-based index into Pairs
 }
 
 func NewBuilder() *Builder {
@@ -97,8 +98,8 @@ func (b *Builder) Codes(items []*Node) []jen.Code {
 
 func (b *Builder) Dict(n *Node) jen.Dict {
 	d := jen.Dict{}
-	info := &DictInfo{Node: n, Keys: map[interface{}]int{}}
-	for i, p := range n.Items {
+	info := &DictInfo{Node: n, Pairs: append([]*Node{}, n.Items...), Keys: map[interface{}]int{}}
+	for i, p := range info.Pairs {
 		k := b.Code(p.Items[0])
 		v := b.Code(p.Items[1])
 		d[k] = v
@@ -358,6 +359,9 @@ func (n *Node) MarshalJSON() ([]byte, error) {
 		r = Rec{"k": "cmt", "v": n.V, "st": n.St}
 	case "tag":
 		r = Rec{"k": "tag", "v": n.V}
+		if n.M != nil {
+			r["m"] = n.M
+		}
 	case "nil":
 		r = Rec{"k": "nil"}
 	default:
